@@ -4,6 +4,7 @@ package main
 // Monitor: textDocument/definition at both ends of every variable-name occurrence vs R-bind.
 
 import (
+	"path/filepath"
 	"fmt"
 	"time"
 )
@@ -11,7 +12,14 @@ import (
 // startScopeServer writes the workspace, starts a server on it and opens every file.
 func startScopeServer(c *Ctx, sw *ScopeWS, tag string) (*Workspace, *Server, error) {
 	ws := c.NewWorkspace(sw.FileMap())
-	srv, err := StartServer(ServerOpts{Root: ws.Root, Tag: tag})
+	opts := ServerOpts{Root: ws.Root, Tag: tag}
+	if len(sw.Roots) > 0 {
+		opts.Root = filepath.Join(ws.Root, sw.Roots[0])
+		for _, rt := range sw.Roots {
+			opts.Folders = append(opts.Folders, filepath.Join(ws.Root, rt))
+		}
+	}
+	srv, err := StartServer(opts)
 	if err != nil {
 		if srv != nil {
 			err = fmt.Errorf("%v; stderr: %s", err, truncate(srv.StderrHead(600), 600))
